@@ -137,6 +137,7 @@ func (e *Exec) monitorOrder(j *Judgement, events []*world.Event) {
 	type idx struct{ p, c, a uint64 }
 	byVersion := map[string]map[uint64]idx{}
 	inflight := map[string]map[uint64]bool{}
+	answered := map[string]map[uint64]bool{} // target -> index -> the device accepted or refused that proposal's request
 	for _, ev := range events {
 		switch {
 		case ev.Kind == "prop.Create" && ev.OK:
@@ -199,6 +200,20 @@ func (e *Exec) monitorOrder(j *Judgement, events []*world.Event) {
 				}
 				if applied[t] < prev {
 					j.add("order", props, "order/push-before-predecessor-finished", "target %s: transaction %d sent to the device (event #%d) while transaction %d had not finished applying (applied index %d)", t, pj, ev.Seq, prev, applied[t])
+				}
+				// "finished applying" as the device saw it: every earlier change that was merged into the stored
+				// configuration has been answered by the device (accepted or refused) before a later one is sent
+				for mj := range merged[t] {
+					if mj < pj && !answered[t][mj] {
+						j.add("order", props, "order/push-skipped-predecessor", "target %s: transaction %d was sent to the device (event #%d) although the earlier transaction %d, merged into the stored configuration, had never been accepted or refused by the device", t, pj, ev.Seq, mj)
+						break
+					}
+				}
+				if ev.Dev.Outcome == "applied" || strings.HasPrefix(ev.Dev.Outcome, "rejected") {
+					if answered[t] == nil {
+						answered[t] = map[uint64]bool{}
+					}
+					answered[t][pj] = true
 				}
 			} else if strings.HasPrefix(ev.Task, "configuration:") && ev.ReadCfg != nil {
 				e.C.Count("resync_pushes_observed", 1)
@@ -273,6 +288,9 @@ func (e *Exec) monitorOrder(j *Judgement, events []*world.Event) {
 
 // monitorAtomic: C01 – the set of targets into which a transaction was merged is all of its targets or none
 func (e *Exec) monitorAtomic(j *Judgement, events []*world.Event) {
+	// (the rule "the transaction says COMMITTED => its merges are in the log" needs a log at least as recent as
+	// the snapshot of the records, which Judge took after it copied the log)
+	events = e.W.Events()
 	mergedInto := map[uint64]map[string]bool{}
 	for _, ev := range events {
 		if ev.Kind == "cfg.Update" && ev.OK && ev.Cfg != nil {
@@ -281,6 +299,19 @@ func (e *Exec) monitorAtomic(j *Judgement, events []*world.Event) {
 				mergedInto[i] = map[string]bool{}
 			}
 			mergedInto[i][ev.Target] = true
+		}
+	}
+	// what the system itself says about each transaction: COMMITTED / APPLIED assert that every proposal was merged
+	saysMerged := map[uint64]bool{}
+	isRollback := map[uint64]bool{}
+	if j.State != nil {
+		for _, t := range j.State.Txs {
+			if t.Status.State == configapi.TransactionStatus_COMMITTED || t.Status.State == configapi.TransactionStatus_APPLIED {
+				saysMerged[uint64(t.Index)] = true
+			}
+			if t.GetRollback() != nil {
+				isRollback[uint64(t.Index)] = true
+			}
 		}
 	}
 	for idx, out := range j.Outs {
@@ -298,10 +329,13 @@ func (e *Exec) monitorAtomic(j *Judgement, events []*world.Event) {
 			}
 			j.add("atomic", props, "atomic/merged-although-rejected", "transaction %d must not commit (%s) but was merged into %v", idx, out.Reason, keys(mergedInto[idx]))
 		}
-		if out.Committed && (e.GoalReached) && n != len(out.Targets) {
+		if out.Committed && (e.GoalReached || saysMerged[idx]) && n != len(out.Targets) {
 			props := []string{"C07"}
 			if len(out.Targets) > 1 {
 				props = append(props, "C01")
+			}
+			if isRollback[idx] {
+				props = append(props, "C06")
 			}
 			j.add("atomic", props, "atomic/partial-merge", "transaction %d names %v but was merged into %v only", idx, out.Targets, keys(mergedInto[idx]))
 		}
